@@ -44,7 +44,8 @@ var c16Types = map[string]reflect.Type{
 }
 
 // how the tag is written for a field (the key is the same either way)
-var c16TagForm = map[string]string{"Flag": "untagged", "Ratio": "flagonly", "Count": "omitempty"}
+// (Flag and Ratio carry the SAME key-less tag text `yaml:",omitempty"`: their keys still come from their own names)
+var c16TagForm = map[string]string{"Flag": "flagonly", "Ratio": "flagonly", "Count": "omitempty", "Items": "untagged"}
 
 func c16StructType(desc []any) reflect.Type {
 	fields := []reflect.StructField{}
